@@ -229,6 +229,16 @@ def pyAdd (T : Tables) (env : Nat → Vec K → Vec K) (self : Impl K) (other : 
              else dispatchAdd T env self (.op b)
   | o => dispatchAdd T env self o
 
+/-- The expression `self * other` as Python evaluates it: for an operator on the right whose
+type is the `Functional…` subclass of the left operand's expression class,
+`Functional.__rmul__` is tried first (and ends in `Operator.__rmul__`). -/
+def pyMul (T : Tables) (env : Nat → Vec K → Vec K) (self : Impl K) (other : Operand K) :
+    Option (Impl K) :=
+  match other with
+  | .op b => if reflectedFirst self b then dispatchRMul T env b (.op self)
+             else dispatchMul T env self (.op b)
+  | o => dispatchMul T env self o
+
 /-- `(-1) * other` for the three kinds of operand. -/
 def negOneTimes (T : Tables) (env : Nat → Vec K → Vec K) : Operand K → Option (Operand K)
   | .op b => (dispatchRMul T env b (.scal (-1))).map .op
@@ -271,7 +281,7 @@ def buildT (T : Tables) (env : Nat → Vec K → Vec K) : Expr K → Option (Imp
       match o with
       | .add => pyAdd T env a' (.op b')
       | .sub => (subOf T a').eval T env a' (.op b')
-      | .mul => dispatchMul T env a' (.op b')
+      | .mul => pyMul T env a' (.op b')
       | .pprod => mkPProd a' b'
       | .quot => mkQuot a' b'
     | _, _ => none
